@@ -208,7 +208,7 @@ def main(tier: str, seed: int) -> int:
         "start events: exactly one under sync without groups; otherwise the first sibling unit",
     ]
     results, notes = core.run_workers("checks.c08", "run_chunk", build_cases(tier, seed),
-                                      chunks_per_proc=8)
+                                      chunks_per_proc=8, case_wall=5000, timeout=6000)
     for n in notes:
         chk.note_inconclusive(n)
     distinct = 0
